@@ -1,8 +1,8 @@
 (* C06 -- UTC <-> TAI follows the IERS leap-second table exactly, in both directions.
    spec_utc2tai / spec_tai2utc (Spec/LeapSpec.v) are step functions over GenLeap.IERS_FILE, i.e. the
    data/leap-seconds.list shipped with the sources as read by the translator on this run. *)
-From Coq Require Import ZArith List.
-From HF Require Import MachInt GenConsts GenLeap Duration Epoch SignedNs Civil LeapSpec DurationP CivilP EpochP.
+From Coq Require Import ZArith Bool List.
+From HF Require Import MachInt GenConsts GenLeap Duration Epoch SignedNs Civil LeapSpec DurationP CivilP EpochP TextParse LeapFile LeapFileP.
 Open Scope Z_scope.
 
 (* built-in table = IERS file = NAIF kernel; the SOFA (pre-1972) entries are not among the announced ones *)
@@ -46,6 +46,18 @@ Proof. exact tai2utc_mono_outside_gaps. Qed.
 (* a provider is consulted through its entries only *)
 Theorem C06_provider_extensional : forall p1 p2 d, p1 = p2 -> leap_seconds_with p1 d = leap_seconds_with p2 d.
 Proof. exact provider_extensional. Qed.
+
+(* the file provider: the model of LeapSecondsFile's parser, run on the bytes of data/leap-seconds.list (regenerated from
+   the sources on every run), yields exactly the built-in table; any accepted file has entries in the u64 / u8 ranges *)
+Theorem C06_shipped_file_is_ascii : forallb (fun c => (0 <=? c) && (c <? 128)) IERS_FILE_BYTES = true.
+Proof. exact shipped_file_ascii. Qed.
+Theorem C06_shipped_file_parses_to_builtin : parse_leap_file IERS_FILE_BYTES = FileOk BUILTIN_IERS.
+Proof. exact shipped_file_parses_to_builtin. Qed.
+Theorem C06_lookup_through_shipped_file : forall tai,
+  match parse_leap_file IERS_FILE_BYTES with FileOk p => leap_seconds_with p tai = leap_seconds_iers tai | FileErr _ => False end.
+Proof. exact lookup_through_shipped_file. Qed.
+Theorem C06_parsed_entries_in_range : forall content p, parse_leap_file content = FileOk p -> Forall entry_ok p.
+Proof. exact parsed_entries_in_range. Qed.
 
 Example C06_nonvacuous :
   spec_delta_utc (3692217600 * NS_PER_S - 1) = 36 /\ spec_delta_utc (3692217600 * NS_PER_S) = 37 /\
